@@ -240,7 +240,34 @@ def r5_archive(ctx):
     ctx.check(good, "C07.R5", up.key, "shows-current-population", "the archive is not updated from the current population with the component's capacity", loc=up.loc())
 
 
+def r4_templates(ctx):
+    """every evaluation is shown to the best-update before its values are overwritten, merged away or the run ends"""
+    import c16
+    sums, fns, res, entered = c16.analyse_templates(ctx)
+    n = 0
+    for (fn, tree, full, w, final) in res:
+        if not full or w is None:
+            continue
+        n += 1
+        seen = set()
+        for (rule, inst, msg) in w.findings:
+            if rule != "C07.R4" or inst in seen:
+                continue
+            seen.add(inst)
+            ctx.violation("C07.R4", fn.key, inst, msg, loc=fn.loc())
+        # at the end of the run nothing evaluated may be unreported
+        for st in (final or {}).values():
+            for sl in st:
+                if sl.evaluated and not sl.reported and ("end", sl.origin) not in seen:
+                    seen.add(("end", sl.origin))
+                    ctx.violation("C07.R4", fn.key, "end<-%s" % (sl.origin or "?").split("@")[0], "the run can end with objective values (evaluated by %s) that no best-individual update has seen" % sl.origin, loc=fn.loc())
+        if not seen:
+            ctx.ok("C07.R4", fn.key, "every-evaluation-reaches-best-update", "excepted: %s" % sorted(w.excepted) if w.excepted else "")
+    ctx.floor("C07.R4", "complete templates analysed", n, 21)
+
+
 def run(ctx):
+    ctx.guard("C07.R4", "templates", lambda: r4_templates(ctx))
     ctx.guard("C07.R1", "BestIndividual::update", lambda: r1_update(ctx))
     ctx.guard("C07.R2", "best of population", lambda: r2_best_of_population(ctx))
     ctx.guard("C07.R3", "writers", lambda: r3_only_update_writes(ctx))
